@@ -396,6 +396,21 @@ class Driver:
                             'now-now': StopMode.REQUEST_NOW_NOW,
                             'kill': StopMode.REQUEST_KILL,
                             None: None}[args.get('mode')]
+        if any(str(t).startswith('@') for t in args.get('tasks') or []):
+            # ids resolved against the pool when the command is issued:
+            # '@runahead' = the runahead-limited waiting tasks (at most 2)
+            ids = []
+            for t in args['tasks']:
+                if t == '@runahead':
+                    ids += [i.identity for i in schd.pool.get_tasks()
+                            if i.state.is_runahead
+                            and i.state.status == 'waiting'][-2:]
+                elif not str(t).startswith('@'):
+                    ids.append(t)
+            if not ids:
+                return
+            args['tasks'] = ids
+            act = dict(act, args=dict(act.get('args', {}), tasks=ids))
         if name == 'reload_workflow' and act.get('new_flow'):
             # a changed definition is installed before the reload request
             import os as _os
